@@ -264,6 +264,62 @@ def rule_r3(facts, rep, rid="C15-R3"):
     rep.floor(rid, "Projector construction sites", n_ctor, 2)
 
 
+def rule_r4(facts, rep, rid="C15-R4"):
+    """A key is resolved against a directory exactly once: Key::from_rel_link_url takes a *url* (text from a link / the user), never something derived from a Key."""
+    n = 0
+    for f in facts.body_fns():
+        if f.crate not in ("liwe", "iwes", "iwe") or f.kind == "closure" or "::tests::" in f.def_ or "::test::" in f.def_:
+            continue
+        i = 0
+        for x in fb.walk(f.body):
+            if x.get("k") == "call" and (fb.callee(x) or "").endswith("Key::from_rel_link_url") and x.get("args"):
+                rep.saw_fn(f)
+                n += 1
+                key = "%s|from_rel_link_url|%d|argument-is-a-url" % (f.def_, i)
+                i += 1
+                c = ctx(f)
+                # walk the *value spine* of the argument: receivers of conversions, bases of fields, initialisers of simple `let` locals
+                from_key = []
+                e = x["args"][0]
+                hops = 0
+                while e is not None and hops < 12:
+                    hops += 1
+                    k_ = e.get("k")
+                    t = fb.tnorm(e.get("ty") or "")
+                    if "liwe::model::Key" in t and "Option<" not in t and "fn(" not in t:
+                        from_key.append(e)
+                        break
+                    if k_ in ("addrof", "unary", "cast"):
+                        e = e["e"]
+                    elif k_ == "mcall":
+                        if "liwe::model::Key" in fb.tnorm(e.get("rty") or ""):
+                            from_key.append(e)
+                            break
+                        e = e["recv"]
+                    elif k_ == "field":
+                        if "liwe::model::Key" in fb.tnorm(e.get("bty") or ""):
+                            from_key.append(e)
+                            break
+                        e = e["e"]
+                    elif k_ == "path" and e.get("res") == "local":
+                        b = c.binds.get(e["id"])
+                        if b and b[0] == "expr" and len(b) > 2 and b[2].get("k") == "p_bind" and c.parent_of.get(id(b[1])) is not None and c.parent_of[id(b[1])].get("k") == "let":
+                            e = b[1]
+                        else:
+                            break
+                    elif k_ == "call" and e.get("args") and fb.last_seg(fb.callee(e) or "") in ("format", "must_use", "from", "to_string"):
+                        e = e["args"][0]
+                    else:
+                        break
+                if from_key:
+                    rep.violation(rid, key, "Key::from_rel_link_url is applied to `%s`, which is derived from a Key (`%s`): keys are already resolved (SectionsBuilder resolves a reference against "
+                                  "the linking note's directory when it is read), so resolving again applies the directory twice - `d/3` becomes `d/d/3` and the reference no longer finds its note" % (
+                                      fb.show(x["args"][0])[:60], fb.show(from_key[0])[:40]), loc(f, x))
+                else:
+                    rep.ok(rid, key, "argument `%s` is url text" % fb.show(x["args"][0])[:50], loc(f, x))
+    rep.floor(rid, "Key::from_rel_link_url call sites", n, 4)
+
+
 def run(facts, rep, tier):
     rep.rule("C15-R1", "Every rendered text is relativised against the directory of the note it will be stored under: for each Change::Update{key: K, markdown: M}, "
              "M comes from to_markdown(&K.parent(), ..) or Graph::to_markdown(&K) (never to_default_markdown / another key's parent); Graph::to_markdown "
@@ -274,3 +330,5 @@ def run(facts, rep, tier):
     rule_r1(facts, rep)
     c05.rule_r2(facts, rep, "C15-R2")
     rule_r3(facts, rep)
+    rep.rule("C15-R4", "A key is resolved against a directory exactly once: every Key::from_rel_link_url call gets url text, never a value derived from a Key.")
+    rule_r4(facts, rep)
